@@ -213,9 +213,8 @@ def run(tier: str, seed: int, st: core.ProofStatus) -> core.Result:
                                                            note=f"spelling {sp['target']!r} from {sp['cwd']!r}: the model resolves it to {'/'.join(m['resolved'])}, the system to {sp['real']}"))
     drv_sp.close()
     base = {(r["cmd"]): r for r in impls[0]["runs"] if r["spelling"] == "dot"}
-    # the project is large enough for --parallel to use its process pool; what the pooled run loses against the sequential one is
-    # C07's subject (F07a), so parallel spellings are compared with the parallel baseline
-    base_par = {(r["cmd"]): r for r in impls[0]["runs"] if r["spelling"] == "dot-parallel"}
+    # (the project is large enough for --parallel to use its process pool; since fix b158f57 the pooled run reports what the
+    #  sequential one reports, so every spelling - parallel or not - is compared with the one sequential baseline)
     for (i, p, cs, _), im in zip(work, impls):
         if im["errors"]:
             res.evaluations += 1
@@ -224,7 +223,7 @@ def run(tier: str, seed: int, st: core.ProofStatus) -> core.Result:
         for r in im["runs"]:
             res.evaluations += 1
             res.bump("spelling", r["spelling"])
-            b = base_par[r["cmd"]] if r["spelling"].endswith("-parallel") else base[r["cmd"]]
+            b = base[r["cmd"]]
             if r["vs"]:
                 res.nontrivial.add(core.canon([p, r["cmd"], r["spelling"]]))
             if r["vs"] != b["vs"] or r["exit"] != b["exit"]:
